@@ -165,7 +165,7 @@ def build(env, p):
         if p.get('initial_fail'):
             def initialReads(self):
                 # the documented use: read once at start-up what is not polled afterwards - and that read fails
-                if self.name == 'm0':
+                if self.name == p.get('initial_fail_mod', 'm0'):
                     kind = w.initial_kind
                     w.log.append(('func', self.name, 'initialReads', w.clock.now, w.clock.now, kind))
                     if kind == 'secop':
@@ -248,6 +248,9 @@ def cases(tier):
     out.append({'fn': 'run_poll', 'id': 'initial-reads-raise', 'params': {'interval': 1, 'slow': 2, 'nmod': 2, 'K': 6, 'change': None,
                                                                         'nsym': 0, 'nfailsym': 0, 'initial_fail': True, 'maxpolls': 40,
                                                                         'concrete_t0': True}})
+    out.append({'fn': 'run_poll', 'id': 'initial-reads-raise/other-module', 'params': {'interval': 1, 'slow': 2, 'nmod': 2, 'K': 6, 'change': None,
+                                                                                     'nsym': 0, 'nfailsym': 0, 'initial_fail': True,
+                                                                                     'initial_fail_mod': 'm1', 'maxpolls': 40, 'concrete_t0': True}})
     out.append({'fn': 'run_poll', 'id': 'change-interval-while-fast', 'params': {'interval': 5, 'slow': 15, 'nmod': 1, 'nsym': 0, 'nfailsym': 0,
                                                                                'K': 7, 'change': 'interval-while-fast', 'maxpolls': 40,
                                                                                'concrete_t0': True}})
